@@ -1140,7 +1140,8 @@ MANIFEST = {
             "frameworks, judged by a three-valued RFC 6455 section 4 reference: accept => OPEN with "
             "the right digest, subprotocol from the client's list, only offered extensions; reject => "
             "never OPEN/onOpen and an HTTP error and/or drop (at the latest by the opening-handshake "
-            "timeout); always: no exception escapes to the framework.",
+            "timeout); always: no exception escapes to the framework."
+            " Origin allow-lists with one and with several entries (origins that continue an entry or cut it short).",
     "note": "Trusted: ref/http_handshake.py (written from RFC 6455/7230, three-valued where the RFCs or "
             "the configuration semantics leave room), env transports. Single mutations only in quick.",
     "technique": "exhaustive bounded enumeration of handshake inputs x configurations x read "
